@@ -203,6 +203,7 @@ type vfWorld struct {
 	readsDownDigest string
 	returnedCerts map[string]int
 	lockoutPause  time.Duration
+	lockoutReplay string
 	idp           *simIdP
 	pendingMods   []string // request modifiers of the step being prepared (precookie:, fwd:, peer:)
 	listenerUp    chan struct{} // closed when the emulated main() received SignerIsReady (the service listener starts then)
